@@ -8,7 +8,7 @@ use serde_json::json;
 use tfref::alpha::{f64_scale, gen_fracs, run_bounded, run_bounded_at, weyl_fracs};
 use tfref::big::Dy;
 
-pub const CALLS: [&str; 6] = ["div", "div_assign", "div_f", "div_assign_f", "f_div", "recip"];
+pub const CALLS: [&str; 7] = ["div", "div_assign", "div_f", "div_assign_f", "f_div", "recip", "div_self"];
 
 fn in_range(hi: f64) -> bool {
     hi.is_finite() && hi.abs() >= 2f64.powi(-450) && hi.abs() <= 2f64.powi(450)
@@ -28,7 +28,16 @@ pub fn judge(call: usize, a: [f64; 2], b: [f64; 2], l: Option<&mut Local>) -> Ve
     if !num_ok || !in_range(b[0]) {
         return Verdict::Skip;
     }
+    // 6: `&x / &x` with BOTH operands the same object (aliased references); judged as div of (a, a)
+    let aliased = call == 6;
+    if aliased && (a[0].to_bits() != b[0].to_bits() || a[1].to_bits() != b[1].to_bits()) {
+        return Verdict::Skip;
+    }
     let res = api(|| match call {
+        6 => {
+            let x = st::mk(a);
+            &x / &x
+        }
         0 => st::mk(a) / st::mk(b),
         1 => {
             let mut t = st::mk(a);
@@ -44,6 +53,7 @@ pub fn judge(call: usize, a: [f64; 2], b: [f64; 2], l: Option<&mut Local>) -> Ve
         4 => a[0] / st::mk(b),
         _ => st::mk(b).recip(),
     });
+    let call = if aliased { 0 } else { call };
     let r = match res {
         Ok(t) => [t.hi(), t.lo()],
         Err(m) => return Verdict::fail("no_panic", name, &args, format!("panic: {}", m), "a value".into(), "panic"),
@@ -274,6 +284,21 @@ pub fn run(r: &mut Runner) {
                 for call in 0..6usize {
                     let v = judge(call, a, b, Some(l));
                     rec.record(l, (1u64 << 62) + i * 8 + call as u64, v);
+                }
+            }
+        });
+    }
+    {
+        // the same object on both sides: `&x / &x` (aliased references), which a squaring / self-cancellation shortcut keyed on
+        // pointer identity would treat differently from two equal values; judged with the oracle of (x, x)
+        let xs = crate::fx::self_alphabet(quick, -450, 449, 501);
+        let nx = xs.len();
+        r.notes.push(format!("aliased operands (&x / &x, one object): {} operands (grid over exponents -450..449, one-call chain states, generic stream)", nx));
+        r.par("aliased operands: &x / &x", nx.div_ceil(4096), nx as u64, |c, l| {
+            for i in (c * 4096)..((c + 1) * 4096).min(nx) {
+                for call in [6usize] {
+                    let v = judge(call, xs[i], xs[i], Some(l));
+                    rec.record(l, (5u64 << 59) + (i * 4 + call % 4) as u64, v);
                 }
             }
         });
